@@ -83,6 +83,8 @@ pub struct Resources {
     pub opens: u64,
     pub pipe_calls: u64,
     pub file_writes: u64,
+    #[serde(default)]
+    pub file_reads: u64,
     pub children_unreaped: u64,
 }
 
@@ -102,8 +104,8 @@ pub fn sample_resources<SE: ShellExtensions>(shell: &Shell<SE>) -> Resources {
     });
     let cs = serde_json::to_value(shell.call_stack()).unwrap_or_default();
     let traps_active = cs.get("active_trap_signals").and_then(|s| s.as_array()).map_or(0, |a| a.len());
-    let (out_len, err_len, opens, pipe_calls, file_writes, children_unreaped) =
-        world::with(|w| (w.sinks[1].len(), w.sinks[2].len(), w.opens, w.pipe_calls, w.file_writes, w.children_spawned - w.children_reaped));
+    let (out_len, err_len, opens, pipe_calls, file_writes, file_reads, children_unreaped) =
+        world::with(|w| (w.sinks[1].len(), w.sinks[2].len(), w.opens, w.pipe_calls, w.file_writes, w.file_reads, w.children_spawned - w.children_reaped));
     Resources {
         scopes,
         frames: shell.call_stack().depth(),
@@ -120,6 +122,7 @@ pub fn sample_resources<SE: ShellExtensions>(shell: &Shell<SE>) -> Resources {
         opens,
         pipe_calls,
         file_writes,
+        file_reads,
         children_unreaped,
     }
 }
@@ -145,6 +148,8 @@ pub struct RunResult {
     pub pipes: usize,
     pub opens: u64,
     pub stdin_reads: u64,
+    #[serde(default)]
+    pub file_reads: u64,
     pub orphans_blocked: bool,
     pub final_resources: Option<Resources>,
     pub snapshot: Option<serde_json::Value>,
@@ -301,10 +306,18 @@ fn entry_args(spec: &RunSpec, dir: &PathBuf) -> Vec<String> {
         FrontEnd::Source => {
             a.push("-c".into());
             a.push("source ./prog.sh".into());
+            if !spec.args.is_empty() {
+                a.push("brush".into());
+                a.extend(spec.args.iter().cloned());
+            }
         }
         FrontEnd::Eval => {
             a.push("-c".into());
             a.push("eval \"$PROG\"".into());
+            if !spec.args.is_empty() {
+                a.push("brush".into());
+                a.extend(spec.args.iter().cloned());
+            }
         }
         FrontEnd::ScriptFile => {
             a.push(dir.join("prog.sh").to_string_lossy().to_string());
@@ -546,6 +559,7 @@ pub fn run_with(spec: &RunSpec, inspect: Option<Inspect>) -> RunResult {
         pipes: w.pipes.len(),
         opens: w.opens,
         stdin_reads: w.stdin_reads,
+        file_reads: w.file_reads,
         orphans_blocked,
         final_resources: out.as_ref().and_then(|o| o.res.clone()),
         snapshot: out.and_then(|o| o.snap),
@@ -572,6 +586,7 @@ fn harness_fail(msg: String) -> RunResult {
         pipes: 0,
         opens: 0,
         stdin_reads: 0,
+        file_reads: 0,
         orphans_blocked: false,
         final_resources: None,
         snapshot: None,
